@@ -293,10 +293,9 @@ class CHECK(core.Check):
                "connector.serviceReceives is replaced; real Requestant/Respondent — vs the Lean models (driver engine "
                "'httpmsg': requests req/rsp, valet, client)",
                "the WSGI application, Responder output and real sockets are not modelled; CPython primitives as in C29",
-               "the tree checked is /repo with fixes D19, D16, D29a, D29b, D18, D29c (committed); the Porter and redirect "
-               "families need fixes/D32b-porter-errored-request.patch and fixes/D32a-patron-bad-redirect.patch: their "
-               "presence is detected, without them the run prints a NOTE and skips that family (the defects are reported: "
-               "replays/C32-D32a-unpatched.json, replays/C32-D32b-unpatched.json)"]
+               "the tree checked is /repo with fixes D19, D16, D29a, D29b, D18, D29c (committed); D32b-porter-errored-request, "
+               "D32a-patron-bad-redirect (committed; defect replays on the old tree: replays/C32-D32a-unpatched.json, "
+               "replays/C32-D32b-unpatched.json)"]
     PARTIAL = ["responses with Content-Type text/event-stream and request targets with bracketed / non-ASCII netloc are "
                "outside the model (explicit outcome 'unmodelled'); the oracle still checks them on the real code",
                "C32_serviceReqs_isolated is about the model of the Valet's connection table (one association list for "
@@ -328,20 +327,6 @@ class CHECK(core.Check):
 
     def extra_evidence(self):
         return {"outside_model_cases_checked_by_oracle_only": self.unmodelled}
-
-    _d32 = None
-
-    def _fixes(self):
-        """are fixes/D32a (Patron: unusable Location) and fixes/D32b (Porter: errored request) in the tree under
-        test?  Both are reported defects of the unchanged code; their case families run once the fix is there."""
-        if CHECK._d32 is None:
-            a = run_client("GET", 65536, [b"HTTP/1.1 302 Found\r\nContent-Length: 0\r\n\r\n"], redirectable=True)[1] is None
-            b = run_porter(65536, [["k", 1], ["r", 1, hx(b"FOO / HTTP/1.1\r\n\r\n")], ["t"]])[1]["raised"] is None
-            CHECK._d32 = (a, b)
-            for ok, name in ((a, "D32a-patron-bad-redirect"), (b, "D32b-porter-errored-request")):
-                if not ok:
-                    print("NOTE property=C32 fixes/%s.patch not applied: its case family is skipped in this run" % name)
-        return CHECK._d32
 
     def _porter_case(self, rng, bad):
         c = self._server_case(rng, bad=bad, cut=None)
@@ -440,8 +425,7 @@ class CHECK(core.Check):
             c = self._server_case(rng, bad=stream, cut=None)
             c["hv"] = label
             yield c
-        has_a, has_b = self._fixes()
-        if has_b:        # the non-WSGI server: every malformed request, header value and body on one of its connections
+        if True:         # the non-WSGI server: every malformed request, header value and body on one of its connections
             for bad in BAD:
                 yield self._porter_case(rng, bad)
             for label, stream in hv_streams("req"):
@@ -452,7 +436,7 @@ class CHECK(core.Check):
                 c = self._porter_case(rng, stream)
                 c["hv"] = label
                 yield c
-        if has_a:        # redirect responses to a redirectable Patron; a followed redirect is answered by a 200
+        if True:         # redirect responses to a redirectable Patron; a followed redirect is answered by a 200
             for label, stream in redirect_streams():
                 yield {"type": "client", "method": "GET", "max": 65536, "redirectable": True, "oracle_only": True, "hv": label,
                        "ops": ["f" + hx(stream), "f-", "f" + hx(b"HTTP/1.1 200 OK\r\nContent-Length: 2\r\n\r\nok")]}
@@ -460,7 +444,7 @@ class CHECK(core.Check):
     def generate(self, rng, n, tier):
         for i in range(n):
             r = rng.random()
-            if r < 0.1 and self._fixes()[1]:
+            if r < 0.1:
                 bad = self._damaged(rng, "req")
                 while self.p29._outside("req", bad):
                     bad = self._damaged(rng, "req")
